@@ -825,6 +825,7 @@ private:
   dimension_type big_parameter_dimension;
 
   friend class PIP_Solution_Node;
+  friend class PIP_Decision_Node;
 };
 
 #include "PIP_Problem_inlines.hh"
